@@ -221,6 +221,7 @@ def facts : Facts := {
   scratchPooledAndCleared := true
   rollbackOnFailedBuild := true
   buildProtocol := true
+  unknownIndexProtocol := true
   hotPathHeapSites := 0
   hotPathHeapSiteList := []
   escapeAnalysisRan := true
